@@ -88,10 +88,17 @@ pub fn check_trace(trace: &Trace, props: u32, want_log: bool) -> Checked {
             }
         }
     }
-    *out.stats.entry("fault.F4_isolated_replicas_on_fresh_thread").or_insert(0) += c.replicas_run;
-    *out.stats.entry("c07.replica_steps_compared").or_insert(0) += c.replica_steps_compared;
-    *out.stats.entry("probe.shared_and_isolated_terms_differ_structurally").or_insert(0) +=
-        c.replica_structure_differs;
+    if c.replicas_run > 0 {
+        *out.stats.entry("fault.F4_isolated_replicas_on_fresh_thread").or_insert(0) += c.replicas_run;
+    }
+    if c.replica_steps_compared > 0 {
+        *out.stats.entry("c07.replica_steps_compared").or_insert(0) += c.replica_steps_compared;
+        *out.stats.entry("evaluations").or_insert(0) += c.replica_steps_compared;
+    }
+    if c.replica_structure_differs > 0 {
+        *out.stats.entry("probe.shared_and_isolated_terms_differ_structurally").or_insert(0) +=
+            c.replica_structure_differs;
+    }
     c.out = out;
     c
 }
